@@ -1,11 +1,11 @@
 """What each property's theorems do NOT (yet) establish, stated plainly; copied into the evidence."""
 NOT_PROVED = {
  "C01": ["nothing essential: C01_restart_identity / C01_history_spec are proved end to end for histories from a fresh directory under hist_ok (well-formed arguments, stream below 2^64 files); directories that did not start fresh (numbering gaps, pre-existing foreign WAL-named entries) and u64 overflow of positions are outside the theorem and covered by the correspondence and the oracle"],
- "C02": ["premise no_zero_collision P: no frame payload (<= BS-7 bytes) has the checksum of one of its own zero-completed proper prefixes - the only way a torn frame could be accepted; satisfiable (torn_hyps_sat); for the real CRC-32 it is the property's 'up to a CRC collision' proviso and cannot be proved. (An earlier, unbounded form of this premise was unsatisfiable - NzcVacuous.nzc_inconsistent - and made the dependent theorems vacuous; found by the proof effort, repaired by bounding it to frame payloads.)",
+ "C02": ["REFUTED for the real checksum (known finding F8, PropC02x.v): CRC-32 is affine, so the premise no_zero_collision of C02_crash_atomic / C02_history / open_torn / torn_read_nocoll is false for Crc.crc32 (a payload ending in d ++ rawcrc(d) has the checksum of the same payload ending in 8 zero bytes), and the conclusion itself fails on a concrete instance (C02_conclusion_false_for_crc32; reproduced on the real crate on every run). The theorems hold for every checksum function without such collisions (satisfiable: torn_hyps_sat); torn_read keeps the collision alternative in its conclusion and holds for the real CRC",
          "the model never exhibits the partially applied truncate/delete the property tolerates; the oracle accepts it",
-         "continued use after a recovery that left a torn frame on disk is proved at stream level only (torn_then_append); a crash during open's own recovery-time GC writes is covered by the crash oracle (restart histories) only",
+         "continued use after a recovery that left a torn frame on disk is proved at stream level only (torn_then_append); a crash during open's own recovery-time GC writes is covered by the crash oracle only",
          "real kernel write atomicity/ordering is assumed as the property states (program-order effects, byte-prefix writes)"],
- "C03": ["nothing essential in the model: C03_process_crash / C03_persisted_survives (process crash) and C03_power_loss / C03_fsynced_survives_power_loss (power loss) are proved end to end under every policy; premises: global invariant at the persist point, hist_wf, stream and CB bounds (everything fits below 2^64 files), no_zero_collision (the 'up to a CRC collision' proviso, satisfiable: torn_hyps_sat)",
+ "C03": ["nothing essential in the model: C03_process_crash / C03_persisted_survives (process crash) and C03_power_loss / C03_fsynced_survives_power_loss (power loss) are proved end to end under every policy; premises: global invariant at the persist point, hist_wf, stream and CB bounds (everything fits below 2^64 files), no_zero_collision - which is FALSE for the real CRC-32 (known finding F8: a torn-off payload tail d ++ rawcrc(d) is not detected), so for the production checksum the theorems hold only up to such constructible collisions; satisfiable for other checksum functions (torn_hyps_sat)",
          "power-loss MODEL: metadata (create / set_len / unlink) is taken as immediately durable - the worst case for unlink-before-sync; reordering or loss of unsynced metadata by a real file system (a created file vanishing, an unlinked file reappearing) is outside the model"],
  "C04": [
    "nothing essential: live, across clean restarts (RestartCorollaries.v) and after recovery from any crash image under any policy (CrashCorollaries.crash_next_positions, crash_next_after_persist) next positions are those of a specification state at least as recent as the persist point; power-loss recovery is covered by the oracle only"
